@@ -16,7 +16,7 @@ RULE = ("core-grammar statements with injected comments x all dialects x sampled
         "pretty vector plus random ones); non-trivial = tree with >= 6 nodes; distinct = distinct (default output, dialect, options)")
 ASSUMPTIONS = ["comments may move or be dropped under pretty printing (the property allows 'up to comments')"]
 SPEC = {
-    "quick": {"shards": 16, "time_cap": 150, "statements": 900, "vectors": 5, "corpus_stride": 1},
+    "quick": {"shards": 16, "time_cap": 400, "statements": 900, "vectors": 5, "corpus_stride": 1},
     "thorough": {"shards": 16, "time_cap": 1500, "statements": 12000, "vectors": 12, "corpus_all_dialects": True},
 }
 SENTINEL = "__SQLGLOT__LB__"
